@@ -1,7 +1,8 @@
 #!/venv/bin/python
 """Confirms a seeded change produced in a scratch worktree and stores it under /verif/seeded/<name>/.
 
-usage: confirm_seed.py <worktree> <name> <property> [check ...]
+usage: confirm_seed.py <worktree | patch-file> <name> <property> [check ...]
+(with a patch file, the demonstration <patch>.demo.py / the notes <patch>.notes.md next to it are taken along)
 Steps: (1) the diff of the worktree is taken as patch.diff; (2) the pinned test command and the four
 per-directory runs are executed with the change (expected 63 / 88 / 142 / 11 / 32 passed); (3) the
 demonstration exits 1 with the change and 0 on a pristine copy; (4) the given checks (default: the
@@ -25,13 +26,20 @@ def sh(cmd, cwd=None, env=None):
     return subprocess.run(cmd, shell=True, cwd=cwd, env=env, capture_output=True, text=True)
 
 
-patch = sh("git diff", cwd=wt).stdout
+if os.path.isfile(wt):
+    patch = open(wt).read()
+    base = wt[:-len(".diff")] if wt.endswith(".diff") else wt
+    for src, f in ((base + ".demo.py", "demo_break.py"), (base + ".notes.md", "CHANGE_NOTES.md")):
+        if os.path.exists(src):
+            shutil.copy(src, os.path.join(dst, f))
+else:
+    patch = sh("git diff", cwd=wt).stdout
+    for f in ("demo_break.py", "CHANGE_NOTES.md"):
+        if os.path.exists(os.path.join(wt, f)):
+            shutil.copy(os.path.join(wt, f), os.path.join(dst, f))
 if not patch.strip():
-    sys.exit("no change in the worktree")
+    sys.exit("no change")
 open(os.path.join(dst, "patch.diff"), "w").write(patch)
-for f in ("demo_break.py", "CHANGE_NOTES.md"):
-    if os.path.exists(os.path.join(wt, f)):
-        shutil.copy(os.path.join(wt, f), os.path.join(dst, f))
 files = re.findall(r"^diff --git a/(\S+)", patch, re.M)
 
 # pristine copy + patched copy (outside /repo and /verif)
